@@ -31,7 +31,7 @@ QUERIES = ["exists", "is_dir", "is_file", "is_symlink", "is_symlink_dir", "is_sy
 
 def alphabet(tier):
     """the bounded universe: names {a, b} (+ a multi-byte one), depth <= 2"""
-    P = ["/a", "/b", "/a/b", "/a/a"] + (["/é"] if tier != "quick" else [])
+    P = ["/a", "/b", "/a/b", "/a/a", "/ab"] + (["/é"] if tier != "quick" else [])
     muts = []
     for p in P:
         muts += [op("mkfile", p), op("mkdir_p", p), op("remove", p), op("remove_all", p)]
@@ -42,7 +42,7 @@ def alphabet(tier):
     muts += [op("symlink", "/b", "/a"), op("symlink", "/a/b", "../b"), op("symlink", "/a/a", "/a"), op("symlink", "/b", "/nope"),
              op("symlink", "/a", "b")]
     muts += [op("move_p", "/a", "/b"), op("move_p", "/b", "/a"), op("move_p", "/a", "/a/b"), op("move_p", "/a/b", "/b"),
-             op("move_p", "/a", "/c/d"), op("move_p", "/b", "/a/a"), op("move_p", "/a", "/a")]
+             op("move_p", "/a", "/c/d"), op("move_p", "/b", "/a/a"), op("move_p", "/a", "/a"), op("move_p", "/a", "/ab"), op("move_p", "/ab", "/a"), op("copy", "/a", "/ab")]
     muts += [op("set_cwd", "/a"), op("set_cwd", "/"), op("set_cwd", "/a/b"), op("remove_all", "/"), op("mkfile", "b"), op("mkdir_p", "../b/./a"),
              op("remove", ".."), op("mkfile", "/"), op("write_all", "/", b"r"), op("mkdir_p", ""), op("mkfile", "~/x"), op("mkdir_p", "$V")]
     qs = []
@@ -72,17 +72,20 @@ def walk_alphabet(tier):
     return muts, qs
 
 
-def bfs_histories(ctx, tier, depth, maxstates):
-    muts, qs = alphabet(tier)
-    m2, q2 = walk_alphabet(tier)
-    muts, qs = muts + m2, qs + q2
+def bfs_histories(ctx, tier, depth, maxstates, muts=None, finals=None, mode="m", tag="bfs"):
+    if muts is None:
+        muts, qs = alphabet(tier)
+        m2, q2 = walk_alphabet(tier)
+        muts, finals = muts + m2, qs + q2
     work = ctx["work"]
-    af = os.path.join(work, "alphabet.txt")
+    af = os.path.join(work, tag + ".alphabet.txt")
     with open(af, "w") as f:
-        f.write("\n".join(muts + qs) + "\n")
-    out = os.path.join(work, "bfs.hist")
+        f.write("\n".join(muts + ["!" + x for x in finals]) + "\n")
+    out = os.path.join(work, tag + ".hist")
+    env = dict(os.environ)
+    env["RVM_BFS_MODE"] = mode
     p = subprocess.run([ctx["rvm"], "--bfs", af, str(depth), str(maxstates), out, envspec(MEM_ENV)],
-                       stdout=subprocess.PIPE, stderr=subprocess.PIPE, text=True, timeout=1200)
+                       stdout=subprocess.PIPE, stderr=subprocess.PIPE, text=True, timeout=1200, env=env)
     if p.returncode != 0:
         raise CheckError("model BFS failed: " + p.stderr[-2000:])
     lines = open(out).read().split("\n")
@@ -147,6 +150,30 @@ def hist_canon(out):
     return "\t".join(fs)
 
 
+TRAVERSING = ("copy", "copy_b", "chmod", "chmod_b", "chown", "chown_b", "mkfile_m")
+
+
+def failed_traversal_canon(line, out):
+    """a traversal-based mutation that fails half-way leaves a state (and reports the error) that depends on
+    HashSet iteration order: which entries were processed before the failing one.  The property constrains
+    successful copies only, so for such a failing call only the fact that it failed is compared."""
+    ops = line.split("\t")[3:]
+    fs = out.split("\t")
+    res_idx = [k for k, f in enumerate(fs) if not f.startswith("#")]
+    for i, o in enumerate(ops):
+        if i < len(res_idx) and o.split(":")[0] in TRAVERSING and fs[res_idx[i]].startswith("E:"):
+            return "\t".join(fs[:res_idx[i]] + ["E:*failed-traversal", "#state-after-failed-traversal-not-compared"])
+        # copy with follow(true) through links: two sources (a followed link and a sibling of the same name) can
+        # map to one destination, and which of them creates it first depends on HashSet order
+        if i < len(res_idx) and o.startswith("copy_b:") and "follow=1" in o and i == len(ops) - 1:
+            pre = [f for f in fs if f.startswith("#pre")]
+            src = o.split(":")[1]
+            if pre and any(it.split(":")[0].startswith(src) and it.split(":")[4][2] == "1"
+                           for it in pre[0].split("E{", 1)[1].split("}", 1)[0].split(";") if it):
+                return "\t".join(fs[:res_idx[i] + 1] + ["#state-after-follow-copy-through-links-not-compared"])
+    return out
+
+
 def mem_streams(tier, rng, ctx, focus=None):
     depth = 2 if tier == "quick" else 3
     maxstates = 400 if tier == "quick" else 6000
@@ -154,11 +181,11 @@ def mem_streams(tier, rng, ctx, focus=None):
     rh = random_histories(rng, 3000 if tier == "quick" else 30000, 12, tier)
     env = dict(MEM_ENV)
     sts = [
-        Stream("mem-bfs", "mirror", hs, impl_env=env, exhaustive=True, judge=None, canon=hist_canon,
+        Stream("mem-bfs", "mirror", hs, impl_env=env, exhaustive=True, judge=None, canon=hist_canon, canon_line=failed_traversal_canon,
                nontrivial=lambda l, o: "\tE:" not in o,
                rule="model-guided BFS (%s, depth %d): every reachable state of the bounded namespace x every call of the alphabet; "
                     "per-call results and the complete final state (all three indexes, cwd, root) compared" % (info, depth)),
-        Stream("mem-random", "mirror", rh, impl_env=env, canon=hist_canon,
+        Stream("mem-random", "mirror", rh, impl_env=env, canon=hist_canon, canon_line=failed_traversal_canon,
                nontrivial=lambda l, o: "\tE:" not in o,
                rule="random histories (<= 12 calls) over 5 names incl. multi-byte, unclean / relative / special spellings"),
     ]
@@ -189,3 +216,676 @@ PROPS["C03"] = {
     "trusted": ["hook sys::verif::memfs_snapshot (read-only state dump under one read guard)", "std HashMap/HashSet as finite maps/sets"],
     "assumptions": ["HashMap / HashSet behave as finite maps / sets", "single-threaded histories (schedules: see C04)"],
 }
+
+
+# ---------------------------------------------------------------------------------------------
+import walkspec
+
+WALK_OPTS = []
+for follow in ["", "follow=1"]:
+    for depth in ["", "min=1", "max=1", "min=1,max=2", "max=0", "min=2"]:
+        for order in ["", "sort", "df", "ff"]:
+            for cf in ["", "cf"]:
+                for flt in ["", "dirs", "files"]:
+                    for cap in ["", "maxdesc=0", "maxdesc=1"]:
+                        WALK_OPTS.append(",".join(x for x in [follow, depth, order, cf, flt, cap] if x))
+
+
+def random_tree_ops(rng, nmax):
+    names = ["a", "b", "c", "é", "a1", "B"]
+    dirs = ["/"]
+    ops = []
+    for _ in range(rng.randint(1, nmax)):
+        parent = rng.choice(dirs)
+        n = rng.choice(names)
+        p = ("/" + n) if parent == "/" else parent + "/" + n
+        k = rng.random()
+        if k < 0.4:
+            ops.append(op("mkdir_p", p))
+            dirs.append(p)
+        elif k < 0.75:
+            ops.append(op("mkfile", p))
+        else:
+            t = rng.choice(dirs + ["/nope", "/a", "/a/b"])
+            ops.append(op("symlink", p, t))
+    return ops
+
+
+def c08_pycheck(line, out):
+    f = line.split("\t")
+    last = f[-1].split(":")
+    if last[0] != "entries":
+        return True
+    fs = out.split("\t")
+    if len(fs) < 2 or not fs[-1].startswith("#"):
+        return False
+    res = fs[-2]
+    if not res.startswith("I"):
+        return res.startswith("E:")          # entries() itself failed (missing root): nothing to check
+    tree = walkspec.parse_snapshot(fs[-1])
+    root = bytes.fromhex(last[1]).decode()
+    # entries() resolves its argument first; the generated roots are clean absolute paths
+    items = [x for x in res[1:].split(",") if x]
+    return walkspec.check(tree, root, last[2] if len(last) > 2 else "", items) is None
+
+
+def walk_canon(out):
+    """unsorted traversals: sibling order is HashSet order, compare the item multiset (the order
+    relations are checked on the implementation's own output by stream walk-valid)"""
+    fs = out.split("\t")
+    for i, f in enumerate(fs):
+        if f.startswith("I") and len(f) > 1 and f[1] != "o":
+            fs[i] = "I*" + ",".join(sorted(f[1:].split(",")))
+    return "\t".join(fs)
+
+
+def c08_streams(tier, rng, ctx):
+    ntrees = 120 if tier == "quick" else 1500
+    env = dict(MEM_ENV)
+    hs_sorted, hs_unsorted, hs_all = [], [], []
+    opts_n = len(WALK_OPTS)
+    for t in range(ntrees):
+        ops = random_tree_ops(rng, 7)
+        roots = ["/"] + [bytes.fromhex(o.split(":")[1]).decode() for o in ops if o.startswith("mkdir_p")][:1]
+        sel = WALK_OPTS if tier != "quick" else rng.sample(WALK_OPTS, 60)
+        for wo in sel:
+            for r in roots:
+                l = "\t".join(["hist", "m", envspec(MEM_ENV)] + ops + ["entries:%s:%s" % (hx(r), wo)])
+                hs_all.append(l)
+                if "sort" in wo or "df" in wo or "ff" in wo:
+                    hs_sorted.append(l)
+                else:
+                    hs_unsorted.append(l)
+    lst = []
+    for t in range(ntrees):
+        ops = random_tree_ops(rng, 7)
+        for k in ["paths", "dirs", "files", "all_paths", "all_dirs", "all_files"]:
+            for r in ["/", "/a", "/a/b", "/nope", "a"]:
+                lst.append("\t".join(["hist", "m", envspec(MEM_ENV)] + ops + [op(k, r)]))
+    return [
+        Stream("walk-sorted", "mirror", hs_sorted, impl_env=env, canon=hist_canon, judge=lambda l, o: not c08_pycheck(l, o),
+               # a followed link is named by its target, so it can tie with a sibling of that name and the sort leaves ties in HashSet order
+               canon_line=lambda l, o: walk_canon(o) if "follow=1" in l.split("\t")[-1] else o,
+               nontrivial=lambda l, o: o.count(",") >= 2,
+               rule="random trees (<= 7 entries, multi-byte names, links incl. cycles and dangling) x option records with a name sort: exact sequence vs the mirror"),
+        Stream("walk-unsorted", "mirror", hs_unsorted, impl_env=env, canon=walk_canon, judge=lambda l, o: not c08_pycheck(l, o),
+               rule="the same without a sort: the yielded multiset vs the mirror"),
+        Stream("walk-valid", "pycheck", hs_all, impl_env=env, pycheck=c08_pycheck,
+               rule="every observed sequence judged by the independent recursive specification: exact multiset the options denote, each once, "
+                    "parents before contents (after with contents_first), siblings in name order / grouped by kind, LinkLooping instead of descent, termination"),
+        Stream("listings", "mirror", lst, impl_env=env, canon=hist_canon, pycheck=None, judge=lambda l, o: True,
+               rule="paths/dirs/files/all_* on random trees vs the mirror"),
+        Stream("listings-valid", "pycheck", lst, impl_env=env, pycheck=listing_pycheck,
+               rule="listing results are absolute, distinct, name-sorted, exclude the argument and agree with the tree (kind of every returned path)"),
+    ]
+
+
+def listing_pycheck(line, out):
+    f = line.split("\t")
+    last = f[-1].split(":")
+    fs = out.split("\t")
+    if len(fs) < 2 or not fs[-1].startswith("#"):
+        return False
+    res = fs[-2]
+    if not res.startswith("L"):
+        return res.startswith("E:")
+    tree = walkspec.parse_snapshot(fs[-1])
+    items = [bytes.fromhex(x).decode() for x in res[1:].split(",") if x]
+    if len(set(items)) != len(items):
+        return False
+    if any(not p.startswith("/") for p in items):
+        return False
+    k = last[0]
+    for p in items:
+        e = tree.get(p)
+        if e is None:
+            return False
+        if k in ("dirs", "all_dirs") and not e["dir"]:
+            return False
+        if k in ("files", "all_files") and not e["file"]:
+            return False
+    # name order within one directory level
+    if k in ("paths", "dirs", "files"):
+        names = [p.rsplit("/", 1)[1].encode() for p in items]
+        if names != sorted(names):
+            return False
+    return True
+
+
+PROPS["C08"] = {
+    "streams": c08_streams,
+    "rule": "random trees of up to 7 entries (multi-byte names, links including cycles and dangling ones) x the cross-product of option settings "
+            "(follow, depth windows, sort / dirs_first / files_first, contents_first, dirs / files filter, descriptor caps 0 / 1 / default); "
+            "sequences compared with the mirror and judged by an independent recursive specification; distinct = distinct (tree, options, root)",
+    "trusted": ["tools/walkspec.py (the independent recursive specification used as the judge)", "hook sys::verif::set_max_descriptors"],
+    "assumptions": ["HashSet iteration order is arbitrary: unsorted sibling order is compared as a multiset", "Stdfs side: see C02"],
+}
+
+
+# ---------------------------------------------------------------------------------------------
+import frames
+
+SETUP = [op("mkdir_p", "/a"), op("mkdir_p", "/b"), op("mkdir_p", "/a/b"), op("mkdir_p", "/a/a"), op("mkfile", "/a"), op("mkfile", "/b"),
+         op("write_all", "/a/b", b"xy"), op("write_all", "/b/a", "é\n".encode()), op("write_all", "/a/a", b""),
+         op("symlink", "/b", "/a"), op("symlink", "/a/a", "/b"), op("symlink", "/a/b", "../b"), op("symlink", "/b/a", "/nope"),
+         op("mkdir_m", "/a", 0o700), op("set_cwd", "/a"), op("mkdir_p", "/ab")]
+PATHS2 = ["/a", "/b", "/a/b", "/a/a", "/b/a", "/c", "/c/d", "/", "/ab"]
+
+
+def frame_streams(tier, rng, ctx, finals, checks, tag, depth_q=3, depth_t=4, maxs_q=500, maxs_t=5000, extra_random=None):
+    depth = depth_q if tier == "quick" else depth_t
+    maxstates = maxs_q if tier == "quick" else maxs_t
+    hs, info = bfs_histories(ctx, tier, depth, maxstates, muts=SETUP, finals=finals, mode="m2", tag=tag)
+    # keep the histories that end with one of the final calls
+    fset = set(finals)
+    hs = [h for h in hs if h.split("\t")[-1] in fset]
+    if extra_random:
+        hs = hs + extra_random
+    env = dict(MEM_ENV)
+    sts = [Stream(tag + "-mirror", "mirror", hs, impl_env=env, exhaustive=True, canon=hist_canon, canon_line=failed_traversal_canon,
+                  judge=lambda l, o: ("PANIC" in o or "POISONED" in o or "CRASH" in o or not all(c(l, o) for _, c in checks)),
+                  nontrivial=lambda l, o: "\tok\t#" in o or "\tp" in o,
+                  rule="model-guided BFS over setup calls (%s, depth %d), then every final call of the property's alphabet in every reached state; "
+                       "results and full pre/post state vs the mirror" % (info, depth))]
+    for cname, c in checks:
+        sts.append(Stream(tag + "-" + cname, "pycheck", hs, impl_env=env, pycheck=c,
+                          rule="the statement's clause '%s' evaluated on the implementation's own pre/post state snapshots" % cname))
+    return sts
+
+
+def c09_streams(tier, rng, ctx):
+    finals = []
+    for a in PATHS2:
+        for b in PATHS2:
+            finals.append(op("move_p", a, b))
+            finals.append(op("copy", a, b))
+    for a, b in [("/a", "/b"), ("/a", "/c"), ("/b", "/a/b"), ("/a/b", "/c/d"), ("/a", "/b/a")]:
+        for o in ["all=448", "cdirs=448", "cfiles=256", "follow=1", "follow=1,all=493"]:
+            finals.append("copy_b:%s:%s:%s" % (hx(a), hx(b), o))
+    finals += [op("move_p", "a", "../b"), op("copy", "./b", "/c//d/"), op("move_p", "/é", "/a"), op("copy", "/a", "/é")]
+    return frame_streams(tier, rng, ctx, finals, [("failed-call-frame", frames.failed_call_frame), ("copy-laws", frames.copy_laws), ("move-laws", frames.move_laws)], "c09")
+
+
+PROPS["C09"] = {
+    "streams": c09_streams,
+    "rule": "every tree of the bounded namespace reachable by the setup calls x every ordered pair of paths (existing or not, nested either way, files, directories, "
+            "links) for copy and move_p, plus Copier option combinations; pre/post snapshots compared with the mirror and judged by the statement's clauses; "
+            "distinct = distinct histories",
+    "trusted": ["tools/frames.py (the statement's clauses as executable checks on state snapshots)", "hook sys::verif::memfs_snapshot"],
+    "assumptions": ["copy with follow(true), destinations nested in the source and unclean spellings are compared through the mirror only"],
+}
+
+
+def c06_streams(tier, rng, ctx):
+    datas = [b"", b"x", "héllo\n".encode(), b"\xff\xfe", b"a\r\nb\n", b"l1\nl2", bytes(range(256)) * 8]
+    finals = []
+    for p in ["/a", "/b", "/a/b", "/c", "/b/a"]:
+        for d in datas:
+            finals.append(op("write_all", p, d))
+            finals.append(op("append_all", p, d))
+        finals += [op("read_all", p), op("read_lines", p), op("write_lines", p, ["l1", "é", "x y"]), op("write_lines", p, []), op("write_lines", p, [""]),
+                   op("append_lines", p, ["u", "v"]), op("append_line", p, "w"), op("append_line", p, "")]
+    finals += [op("copy", "/a/b", "/c"), op("move_p", "/a/b", "/c"), op("copy", "/b/a", "/a/b")]
+    sts = frame_streams(tier, rng, ctx, finals, [("content-laws", frames.content_laws)], "c06", depth_q=2, maxs_q=300)
+    # interleavings of writes / appends / copies / moves over three files, then reads of all three
+    fs3 = ["/f1", "/f2", "/d/f3"]
+    acts = []
+    for f in fs3:
+        acts += [op("write_all", f, b"W" + f.encode()), op("append_all", f, b"+a"), op("append_line", f, "ln"), op("write_lines", f, ["x", "y"])]
+    acts += [op("copy", "/f1", "/f2"), op("copy", "/f2", "/d/f3"), op("move_p", "/f1", "/d/f3"), op("move_p", "/d/f3", "/f1"), op("remove", "/f2")]
+    n = 3 if tier == "quick" else 4
+    il = []
+    reads = [op("read_all", f) for f in fs3] + [op("read_lines", f) for f in fs3]
+    for t in itertools.product(acts, repeat=n):
+        if tier == "quick" and rng.random() < 0.5:
+            continue
+        il.append("\t".join(["hist", "m", envspec(MEM_ENV), op("mkdir_p", "/d")] + list(t) + reads))
+    # explicit handles interleaved with other calls on the same file: flushes and drops at every point
+    hacts = ["open_w:%s" % hx("/f"), "open_a:%s" % hx("/f"), "hwrite:0:%s" % b"A".hex(), "hwrite:1:%s" % b"B".hex(), "hflush:0", "hflush:1", "hdrop:0", "hdrop:1",
+             op("write_all", "/f", b"first\n"), op("append_all", "/f", b"+"), op("remove", "/f"), op("read_all", "/f")]
+    hn = 5 if tier == "quick" else 6
+    hl = []
+    for t in itertools.product(hacts, repeat=hn):
+        # at least one open, and handle ops only after their open
+        opens = [x for x in t if x.startswith("open_")]
+        if not opens or not t[0].startswith("open_") and not t[1].startswith("open_"):
+            continue
+        if rng.random() < (0.97 if tier == "quick" else 0.9):
+            continue
+        hl.append("\t".join(["hist", "h", envspec(MEM_ENV)] + list(t) + [op("read_all", "/f")]))
+    seq = ["open_a:%s" % hx("/f"), op("write_all", "/f", b"first\n"), "hwrite:0:%s" % b"second\n".hex(), "hflush:0", op("read_all", "/f")]
+    hl.append("\t".join(["hist", "h", envspec(MEM_ENV)] + seq))
+    hl.append("\t".join(["hist", "h", envspec(MEM_ENV), "open_a:%s" % hx("/f"), op("append_all", "/f", b"x"), "hdrop:0", op("read_all", "/f")]))
+    sts.append(Stream("c06-handles", "mirror", hl, impl_env=dict(MEM_ENV), judge=lambda l, o: True,
+                      rule="write / append handles opened, written, flushed and dropped at every point, interleaved with write_all / append_all / remove on the same file"))
+    sts.append(Stream("c06-interleavings", "mirror", il, impl_env=dict(MEM_ENV), judge=lambda l, o: True,
+                      rule="all sequences of %d write/append/line/copy/move/remove calls over three files, then read_all and read_lines of each" % n))
+    return sts
+
+
+PROPS["C06"] = {
+    "streams": c06_streams,
+    "rule": "byte strings (empty, multi-byte, invalid UTF-8, CRLF, no final newline, 2 KiB) x every reachable tree of the bounded namespace x write/append/line helpers and reads; "
+            "all short interleavings of writes/appends/copies/moves over three files followed by reads; distinct = distinct histories",
+    "trusted": ["tools/frames.py content_laws", "Base/Utf8.v (UTF-8 validity and BufRead::lines as modelled)"],
+    "assumptions": ["std String::from_utf8 / BufRead::lines behave as Base/Utf8.v (exercised with invalid sequences and CR/LF combinations)"],
+}
+
+
+def c12_streams(tier, rng, ctx):
+    """adversarial arguments into every method: empty, '~', '$', '//', long '..' chains, multi-byte, very long names"""
+    adv = ["", "/", "//", ".", "..", "~", "~/", "~x", "$", "${", "$V", "${V}", "$NOPE", "a//b", "../../../..", "/" + "../" * 50, "é", "/é/語/😀", "ab//€€",
+           "/ab/cƒ//x", "a//b/😀/c", "file://", "FILE:///é", "http://x//y", "x" * 300, "/" + "/".join(["d"] * 60), "a\tb", "a:b", "/a/./b/../c/", "~/~"]
+    calls1 = ["abs", "exists", "is_dir", "is_file", "is_symlink", "is_exec", "is_readonly", "mode", "owner", "uid", "gid", "set_cwd", "mkfile", "mkdir_p",
+              "read_all", "read_lines", "remove", "remove_all", "readlink", "readlink_abs", "paths", "dirs", "files", "all_paths", "all_dirs", "all_files"]
+    hs = []
+    pre = [op("mkdir_p", "/é/a"), op("write_all", "/é/a/f", "x".encode()), op("symlink", "/l", "/é")]
+    for a in adv:
+        for c in calls1:
+            hs.append("\t".join(["hist", "m", envspec(MEM_ENV)] + pre + [op(c, a), op("exists", "/")]))
+        for b in rng.sample(adv, 6):
+            for c2 in ["move_p", "copy", "symlink"]:
+                hs.append("\t".join(["hist", "m", envspec(MEM_ENV)] + pre + [op(c2, a, b), op("exists", "/")]))
+        hs.append("\t".join(["hist", "m", envspec(MEM_ENV)] + pre + [op("write_all", a, b"d"), op("append_all", a, b"e"), op("mkdir_m", a, 0o700), op("chmod", a, 0o600),
+                                                                   op("chown", a, 1, 2), op("mkfile_m", a, 0o644), "entries:%s:sort,follow=1" % hx(a), op("exists", "/")]))
+    # move_p / copy on multi-byte paths (formerly a panic under the write guard) and into own subtree (formerly a hang)
+    for a, b in [("/é/a", "/b"), ("/é", "/é/a/z"), ("/é/a", "/é/a"), ("/é", "/x/y"), ("/l", "/é/a"), ("/é/a/f", "/é")]:
+        for c2 in ["move_p", "copy"]:
+            hs.append("\t".join(["hist", "m", envspec(MEM_ENV)] + pre + [op(c2, a, b), op("exists", "/"), op("all_paths", "/")]))
+    rh = random_histories(rng, 2000 if tier == "quick" else 20000, 10, tier)
+    bad = lambda l, o: ("PANIC" in o or "POISONED" in o or "CRASH" in o or "HANG" in o)
+    return [
+        Stream("c12-adversarial", "mirror", hs, impl_env=dict(MEM_ENV), canon=hist_canon, canon_line=failed_traversal_canon, judge=bad,
+               nontrivial=lambda l, o: True,
+               rule="adversarial argument strings into every Memfs method (each under catch_unwind, followed by a probe call that a poisoned lock would fail)"),
+        Stream("c12-no-panic", "pycheck", hs + rh, impl_env=dict(MEM_ENV), pycheck=lambda l, o: not bad(l, o),
+               rule="no PANIC / POISONED / CRASH / HANG marker in any transcript"),
+    ]
+
+
+PROPS["C12"] = {
+    "streams": c12_streams,
+    "rule": "adversarial argument strings (empty, ~, $, //, 50-deep '..' chains, 2-/3-/4-byte characters at slicing offsets, 300-character names, 60-deep paths, protocol prefixes) "
+            "into every Memfs method, each call under catch_unwind followed by a probe call; plus random histories; the pure helpers are exercised by C14/C15/C19 exhaustively; "
+            "distinct = distinct histories",
+    "trusted": ["catch_unwind observes every panic of the called code", "a hang kills the batch process and is reported as CRASH (no watchdog thread yet)"],
+    "assumptions": ["bounded time = the mirrors' fuel bounds (proved for expand's scanner; exercised for the worklist loops)"],
+}
+
+
+def c01_streams(tier, rng, ctx):
+    sts = mem_streams(tier, rng, ctx)
+    for st in sts:
+        # for C01 the mirror stands for the reference filesystem: a disagreement is a failing history
+        st.judge = lambda l, o: True
+    # failed single-target calls leave the tree exactly as it was: judged on pre/post snapshots
+    finals = []
+    for p in PATHS2 + ["a", "../b", "", "~", "/a/b/c/d"]:
+        finals += [op("mkfile", p), op("mkdir_p", p), op("mkdir_m", p, 0o700), op("write_all", p, b"w"), op("append_all", p, b"a"), op("remove", p), op("set_cwd", p)]
+        for q in ["/a", "/b", "/c/d", "../x"]:
+            finals += [op("move_p", p, q), op("symlink", p, q)]
+    sts += frame_streams(tier, rng, ctx, finals, [("failed-call-frame", frames.failed_call_frame)], "c01f", depth_q=2, maxs_q=250)
+    return sts
+
+
+PROPS["C01"] = {
+    "streams": c01_streams,
+    "rule": "model-guided breadth-first enumeration of the reachable states of a bounded namespace x the full call alphabet (create, write, append, read, list, query, chmod, chown, "
+            "copy, move, remove, symlink, set_cwd; absolute, relative and unclean spellings) plus random histories; every call's value / error kind and the complete resulting state "
+            "compared with the mirror; failed single-target calls judged on pre/post snapshots; distinct = distinct histories",
+    "trusted": ["hook sys::verif::memfs_snapshot", "tools/frames.py failed_call_frame"],
+    "assumptions": ["the mirror (Memfs/Ops.v, WalkOps.v) stands for the reference tree filesystem: see the level note (refinement to an independent tree specification is not yet proved)"],
+}
+
+
+def c20_streams(tier, rng, ctx):
+    finals = []
+    paths = ["/a", "/b", "/a/b", "/a/a", "/b/a", "/c", "/", "", "b", "../b", "/ab"]
+    for p in paths:
+        for mname in ["exists", "no_exists", "is_dir", "no_dir", "is_file", "no_file", "is_symlink", "no_symlink", "mkdir_p", "mkfile", "remove", "remove_all"]:
+            finals.append("macro:%s:%s" % (mname, hx(p)))
+        for d in ["xy", "", "é\n", "other"]:
+            finals.append("macro:read_all:%s:%s" % (hx(p), hx(d)))
+            finals.append("macro:write_all:%s:%s" % (hx(p), hx(d)))
+        for t in ["/a", "/b", "../b", "b", "/nope", "/a/b"]:
+            finals.append("macro:readlink:%s:%s" % (hx(p), hx(t)))
+            finals.append("macro:readlink_abs:%s:%s" % (hx(p), hx(t)))
+            finals.append("macro:symlink:%s:%s" % (hx(p), hx(t)))
+        for md in [0o755, 0o700, 0o40755, 0]:
+            finals.append("macro:mkdir_m:%s::%d" % (hx(p), md))
+    depth = 2 if tier == "quick" else 3
+    hs, info = bfs_histories(ctx, tier, depth, 300 if tier == "quick" else 4000, muts=SETUP, finals=finals, mode="m", tag="c20")
+    fset = set(finals)
+    hs = [h for h in hs if h.split("\t")[-1] in fset]
+    return [Stream("macros-memfs", "mirror", hs, impl_env=dict(MEM_ENV), exhaustive=True, judge=lambda l, o: True,
+                   nontrivial=lambda l, o: "\tpass\t" in o,
+                   rule="every state of the bounded namespace (%s) x every path x every assert_vfs_* macro, invoked under catch_unwind on the real Memfs; "
+                        "pass / panic, the macro named in the message and the resulting state vs the mirror of the macro bodies" % info)]
+
+
+PROPS["C20"] = {
+    "streams": c20_streams,
+    "rule": "every reachable state of the bounded namespace x every path x every assert_vfs_* macro (with matching and non-matching expected values); "
+            "non-trivial = the macro passes; distinct = distinct (history, macro invocation)",
+    "trusted": ["catch_unwind + panic payload for the macro message", "hook sys::verif::memfs_snapshot"],
+    "assumptions": ["Stdfs side: see C02 (not yet run for the macros)", "the path named in a panic message is not compared, only the macro name"],
+}
+
+
+# ---------------------------------------------------------------------------------------------
+import posixpath
+
+
+def c10_cases(tier, rng):
+    names = ["a", "b", "é"]
+    dirs = ["/"] + ["/" + x for x in names] + ["/%s/%s" % (x, y) for x in names[:2] for y in names[:2]] + ["/a/b/a", "/a/b/a/b"]
+    cases = []
+    for ld in dirs:
+        for td in dirs:
+            for tk in ["absent", "file", "dir", "link"]:
+                link = (ld.rstrip("/") + "/l")
+                target = (td.rstrip("/") + "/t") if tk != "dir" or td == "/" else td
+                if tk == "dir" and td == "/":
+                    target = "/t"
+                if target == link:
+                    continue
+                for spelling in ["abs", "rel"]:
+                    cases.append((link, target, tk, spelling))
+    if tier == "quick":
+        cases = rng.sample(cases, min(len(cases), 700))
+    return cases
+
+
+def c10_hist(link, target, tk, spelling):
+    ld = posixpath.dirname(link)
+    setup = [op("mkdir_p", ld)]
+    if tk == "file":
+        setup += [op("mkdir_p", posixpath.dirname(target)), op("write_all", target, b"T")]
+    elif tk == "dir":
+        setup += [op("mkdir_p", target)]
+    elif tk == "link":
+        setup += [op("mkdir_p", posixpath.dirname(target)), op("mkfile", "/zz"), op("symlink", target, "/zz")]
+    tsp = target if spelling == "abs" else posixpath.relpath(target, ld)
+    qs = [op("symlink", link, tsp), op("readlink_abs", link), op("readlink", link), op("is_symlink", link), op("is_file", link), op("is_dir", link),
+          op("is_symlink_dir", link), op("is_symlink_file", link), op("readlink", target), op("readlink_abs", ld)]
+    return setup, qs, tsp
+
+
+def c10_pycheck(line, out):
+    f = line.split("\t")
+    ops = f[3:]
+    res = [x for x in out.split("\t") if not x.startswith("#")]
+    try:
+        i = next(k for k, o in enumerate(ops) if o.startswith("symlink:") and k >= len(ops) - 10)
+    except StopIteration:
+        return True
+    sy = ops[i].split(":")
+    link, tsp = bytes.fromhex(sy[1]).decode(), bytes.fromhex(sy[2]).decode()
+    r = res[i:]
+    if not r[0].startswith("p"):
+        return True           # the symlink call itself failed: nothing recorded
+    ld = posixpath.dirname(link)
+    want_abs = posixpath.normpath(tsp if tsp.startswith("/") else ld.rstrip("/") + "/" + tsp)
+    if r[1] != "p" + want_abs.encode().hex():
+        return False          # readlink_abs(link) == abs(target)
+    if not r[2].startswith("p"):
+        return False
+    rel = bytes.fromhex(r[2][1:]).decode()
+    if posixpath.normpath(ld.rstrip("/") + "/" + rel) != want_abs and not (rel.startswith("/") and posixpath.normpath(rel) == want_abs):
+        return False          # cleaning dir(link)/readlink(link) gives readlink_abs(link)
+    if rel.startswith("/"):
+        return False          # readlink is a relative path
+    if (r[3], r[4], r[5]) != ("b1", "b0", "b0"):
+        return False          # link exclusion
+    return True
+
+
+def c10_known(line, impl_out, model_out):
+    # KF-C10-self-dir: a link whose target is its own directory stores the absolute target as its relative path
+    ops = line.split("\t")[3:]
+    for o in ops:
+        if o.startswith("symlink:"):
+            sy = o.split(":")
+            link, tsp = bytes.fromhex(sy[1]).decode(), bytes.fromhex(sy[2]).decode()
+            ld = posixpath.dirname(link)
+            if link.endswith("/l") and posixpath.normpath(tsp if tsp.startswith("/") else ld.rstrip("/") + "/" + tsp) == ld:
+                return "KF-C10-self-dir"
+    return None
+
+
+def c10_streams(tier, rng, ctx):
+    hs, hs2 = [], []
+    for link, target, tk, spelling in c10_cases(tier, rng):
+        setup, qs, tsp = c10_hist(link, target, tk, spelling)
+        hs.append("\t".join(["hist", "m", envspec(MEM_ENV)] + setup + qs))
+        # remove / chmod / chown on the link never touch the target
+        for act in [op("remove", link), op("chmod", link, 0o600), op("chown", link, 7, 8), "chmod_b:%s::%s" % (hx(link), hx("a:a-w"))]:
+            hs2.append("\t".join(["hist", "m2", envspec(MEM_ENV)] + setup + [qs[0], act]))
+    env = dict(MEM_ENV)
+
+    def target_untouched(line, out):
+        name, args, _ = frames.last_op(line)
+        res, pre, post = frames.split_out(out)
+        if pre is None or post is None:
+            return True
+        link = args[0]
+        for p in pre["ents"]:
+            if p != link and frames.observable(pre, p) != frames.observable(post, p):
+                return False
+        return True
+    return [
+        Stream("symlink-mirror", "mirror", hs, impl_env=env, judge=lambda l, o: not c10_pycheck(l, o), exhaustive=(tier != "quick"),
+               rule="(link position, target position) pairs in trees up to depth 4, absolute and relative spelling, target absent / file / dir / link; symlink then the queries"),
+        Stream("symlink-laws", "pycheck", hs, impl_env=env, pycheck=c10_pycheck, known=c10_known,
+               rule="readlink_abs = abs(target); clean(dir(link)/readlink) = readlink_abs; readlink relative; is_symlink and not is_file / is_dir"),
+        Stream("nofollow-mirror", "mirror", hs2, impl_env=env, judge=lambda l, o: not target_untouched(l, o), canon_line=failed_traversal_canon),
+        Stream("nofollow-frame", "pycheck", hs2, impl_env=env, pycheck=target_untouched,
+               rule="remove / chmod / chown without follow on the link leave every other entry (the target included) exactly as it was"),
+    ]
+
+
+PROPS["C10"] = {
+    "streams": c10_streams,
+    "rule": "pairs (link position, target position) in trees up to depth 4, both spellings of the target, all kinds of target; the statement's clauses evaluated on the "
+            "implementation's results and pre/post snapshots; distinct = distinct histories",
+    "trusted": ["tools/c_mem.py c10_pycheck (posixpath.normpath as the lexical clean of absolute paths)"],
+    "assumptions": ["Stdfs side: see C02"],
+}
+
+
+# ---------------------------------------------------------------------------------------------
+# C11 at tree level: chmod / chown change exactly the targeted entries to exactly the requested value
+import walkspec
+import c_core
+
+WHO = {"u": 0o700, "g": 0o070, "o": 0o007, "a": 0o777}
+PERM = {"r": 0o444, "w": 0o222, "x": 0o111}
+import re as _re
+_CLAUSE = _re.compile(r"^([dfa]):([ugoa]+)([-+=])([rwx]+)$")
+
+
+def sym_spec(kind, mode, sym):
+    """the documented grammar [dfa]:[ugoa][-+=][rwx], comma-repeatable, written from the Chmod documentation.
+    -> new mode, or None when the expression is not in the documented canonical form"""
+    for cl in sym.split(","):
+        m = _CLAUSE.match(cl)
+        if not m:
+            return None
+        t, who, o, perms = m.groups()
+        g = 0
+        for c in who:
+            g |= WHO[c]
+        p = 0
+        for c in perms:
+            p |= PERM[c]
+        if t == "a" or (t == "d" and kind == "dir") or (t == "f" and kind == "file"):
+            if o == "-":
+                mode &= ~(g & p)
+            elif o == "+":
+                mode |= g & p
+            else:
+                mode = (mode & ~g) | (g & p)
+    return mode
+
+
+def _abs_of(cwd, p):
+    return posixpath.normpath(p if p.startswith("/") else cwd.rstrip("/") + "/" + p)
+
+
+def _kvs(s):
+    return dict((x.split("=") + ["1"])[:2] for x in s.split(",") if x and x != "-")
+
+
+def c11_parse(line):
+    name, args, rawargs = frames.last_op(line)
+    if name == "chmod":
+        m = int(rawargs[1])
+        return dict(kind="chmod", path=args[0], dirs=m, files=m, follow=False, rec=True, sym="")
+    if name == "chmod_b":
+        o = _kvs(rawargs[1])
+        al = int(o["all"]) if "all" in o else None
+        return dict(kind="chmod", path=args[0], dirs=int(o["dirs"]) if "dirs" in o else al, files=int(o["files"]) if "files" in o else al,
+                    follow=o.get("follow", "0") != "0", rec="norecurse" not in o, sym=args[2] if len(args) > 2 else "")
+    if name == "chown":
+        return dict(kind="chown", path=args[0], uid=int(rawargs[1]), gid=int(rawargs[2]), follow=False, rec=True)
+    if name == "chown_b":
+        o = _kvs(rawargs[1])
+        return dict(kind="chown", path=args[0], uid=int(o["uid"]) if "uid" in o else None, gid=int(o["gid"]) if "gid" in o else None,
+                    follow=o.get("follow", "0") != "0", rec="norecurse" not in o)
+    return None
+
+
+def c11_verdict(line, out):
+    """None when the statement's clauses hold on the implementation's pre/post snapshots, else (reason, class)"""
+    c = c11_parse(line)
+    res, pre, post = frames.split_out(out)
+    if c is None or pre is None or post is None or not res:
+        return None
+    r = res[-1]
+    root = _abs_of(pre["cwd"], c["path"]) if c["path"] and not c["path"].startswith(("~", "$")) else None
+    same = pre["ents"] == post["ents"] and pre["data"] == post["data"] and pre["cwd"] == post["cwd"]
+    if r != "ok":
+        if (r.startswith("E:InvalidChmod") or root is None or root not in pre["ents"]) and not same:
+            return ("a failed call changed the tree", None)
+        return None
+    if root is None or root not in pre["ents"]:
+        return None
+    spec = walkspec.selected(pre["ents"], root, {"follow": c["follow"], "min": 0, "max": None if c["rec"] else 0, "sort": False, "df": False, "ff": False,
+                                                 "cf": False, "dirs": False, "files": False})
+    if any(k == "err" for k, *_ in spec):
+        return None
+    targeted = set(v for k, v, *_ in spec)
+    if set(pre["ents"]) != set(post["ents"]) or pre["data"] != post["data"] or pre["cwd"] != post["cwd"]:
+        return ("names, contents or cwd changed", None)
+    for p, e in pre["ents"].items():
+        e2 = post["ents"][p]
+        for fld in ("path", "alt", "rel", "dir", "file", "link", "files"):
+            if e[fld] != e2[fld]:
+                return ("%s of %s changed" % (fld, p), None)
+        if c["kind"] == "chown":
+            if e["mode"] != e2["mode"]:
+                return ("chown changed the mode of %s" % p, None)
+            want = (e["uid"], e["gid"])
+            if p in targeted:
+                want = (c["uid"] if c["uid"] is not None else e["uid"], c["gid"] if c["gid"] is not None else e["gid"])
+            if (e2["uid"], e2["gid"]) != want:
+                return ("owner of %s is %s, expected %s" % (p, (e2["uid"], e2["gid"]), want), None)
+            continue
+        if (e["uid"], e["gid"]) != (e2["uid"], e2["gid"]):
+            return ("chmod changed the owner of %s" % p, None)
+        if e2["mode"] & 0o170000 != e["mode"] & 0o170000:
+            return ("file-type bits of %s changed" % p, None)
+        want, cls = e["mode"], None
+        if p in targeted and not e["link"]:
+            k = "dir" if e["dir"] else "file"
+            octal = c["dirs"] if k == "dir" else c["files"]
+            if octal is not None and (octal != 0 or not c["sym"]):
+                want = (e["mode"] & 0o170000) | octal
+                if octal == 0:
+                    cls = "KF-C11-octal-zero"
+            elif c["sym"]:
+                want = sym_spec(k, e["mode"], c["sym"])
+                if want is None:
+                    continue
+        if e2["mode"] != want:
+            return ("mode of %s is %o, expected %o" % (p, e2["mode"], want), cls)
+    return None
+
+
+def c11_tree_check(line, out):
+    return c11_verdict(line, out) is None
+
+
+def c11_tree_known(line, impl_out, model_out):
+    v = c11_verdict(line, impl_out)
+    return v[1] if v else None
+
+
+C11_SETUP = [op("mkdir_p", "/a"), op("mkdir_p", "/a/b"), op("mkfile", "/a/a"), op("mkfile", "/b"), op("mkfile_m", "/a/b", 0o066), op("mkdir_m", "/b", 0o500),
+             op("symlink", "/a/a", "/b"), op("symlink", "/b", "/a"), op("symlink", "/a/b", "../b"), op("symlink", "/b/a", "/nope"), op("chmod", "/a/a", 0o7),
+             op("mkfile_m", "/b/a", 0o755), op("set_cwd", "/a")]
+C11_SYMS = ["a:a-rwx", "f:a-rwx", "d:a-rwx", "f:a+x", "d:go-rwx", "a:u=rw", "a:go=r", "f:ug+w,d:o-x", "d:a+x,f:a-x", "f:u=rwx,f:g=rx,f:o=r", "a:a=r,a:a+w", "a:o+w,f:u-r",
+            "f:a-rw", "d:u-wx,d:go=rx", "a:ugo=x"]
+C11_BAD = ["", "x:a+r", "a:z+r", "a:a+", "a:a", "a", "f:a+x,q:a+r", "f:a+x,d:a+", "a:+r", "a:a?r", "f:a+q"]
+
+
+def c11_tree_streams(tier, rng, ctx):
+    paths = ["/", "/a", "/b", "/a/a", "/a/b", "/b/a", "b", ".", "/c"]
+    finals = []
+    for p in paths:
+        for m in [0o777, 0o600, 0o755, 0, 0o4755, 0o1, 0o444]:
+            finals.append(op("chmod", p, m))
+        for o in ["", "follow=1", "norecurse", "follow=1,norecurse"]:
+            for s in C11_SYMS:
+                finals.append("chmod_b:%s:%s:%s" % (hx(p), o, hx(s)))
+            for oc in ["all=511", "dirs=448", "files=384", "dirs=493,files=420", "all=0", "files=0", "dirs=0"]:
+                finals.append("chmod_b:%s:%s:" % (hx(p), ",".join(x for x in [o, oc] if x)))
+            finals.append("chmod_b:%s:%s:%s" % (hx(p), ",".join(x for x in [o, "dirs=457"] if x), hx("f:a+x")))
+            for ow in ["uid=9", "gid=3", "uid=4,gid=5", ""]:
+                finals.append("chown_b:%s:%s" % (hx(p), ",".join(x for x in [o, ow] if x)))
+        for s in C11_BAD[1:]:
+            finals.append("chmod_b:%s::%s" % (hx(p), hx(s)))
+            finals.append("chmod_b:%s:follow=1:%s" % (hx(p), hx(s)))
+        finals.append(op("chown", p, 5, 7))
+    checks = [("exactly-targeted", c11_tree_check)]
+    depth = 3 if tier == "quick" else 5
+    maxstates = 150 if tier == "quick" else 3000
+    hs, info = bfs_histories(ctx, tier, depth, maxstates, muts=C11_SETUP, finals=finals, mode="m2", tag="c11t")
+    fset = set(finals)
+    hs = [h for h in hs if h.split("\t")[-1] in fset]
+    if tier == "quick" and len(hs) > 40000:
+        hs = rng.sample(hs, 40000)
+    env = dict(MEM_ENV)
+    # is_exec / is_readonly agree with mode(), for every permission value (exhaustive over the 512 rwx combinations and the special bits)
+    qs = []
+    for kind_op in ("mkfile", "mkdir_p"):
+        for m in list(range(0, 0o1000)) + [0o4755, 0o2755, 0o1777, 0o7777]:
+            qs.append("\t".join(["hist", "m", envspec(MEM_ENV), op(kind_op, "/x"), op("chmod", "/x", m), op("mode", "/x"), op("is_exec", "/x"), op("is_readonly", "/x")]))
+        for s in C11_SYMS:
+            qs.append("\t".join(["hist", "m", envspec(MEM_ENV), op(kind_op, "/x"), "chmod_b:%s::%s" % (hx("/x"), hx(s)), op("mode", "/x"), op("is_exec", "/x"), op("is_readonly", "/x")]))
+
+    def exec_agree(line, out):
+        r = [x for x in out.split("\t") if not x.startswith("#")]
+        if len(r) < 5 or not r[2].startswith("n"):
+            return False
+        m = int(r[2][1:])
+        return r[3] == ("b1" if m & 0o111 else "b0") and r[4] == ("b1" if m & 0o222 == 0 else "b0")
+    return [
+        Stream("tree-mirror", "mirror", hs, impl_env=env, exhaustive=True, canon=hist_canon, canon_line=failed_traversal_canon,
+               judge=lambda l, o: ("PANIC" in o or "POISONED" in o or "CRASH" in o or not c11_tree_check(l, o)),
+               nontrivial=lambda l, o: "\tok\t#" in o,
+               rule="model-guided BFS over setup calls (%s, depth %d: dirs, files with modes 066 / 007 / 755, a 0500 directory, links to files, dirs, dangling), then every chmod / chmod_b / chown / chown_b "
+                    "call of the alphabet (octal incl. 0 and special bits, 15 symbolic expressions incl. results of 000, 10 malformed ones, follow x recursion, dirs / files selectors) in every "
+                    "reached state; results and full pre/post state vs the mirror" % (info, depth)),
+        Stream("tree-exactly-targeted", "pycheck", hs, impl_env=env, pycheck=c11_tree_check, known=c11_tree_known,
+               rule="on the implementation's pre/post snapshots: the targeted set (independent traversal spec, follow / recursion) gets exactly the value of the documented grammar "
+                    "(independent Python statement), type bits kept, links and untargeted entries untouched, nothing but modes (chmod) / owners (chown) changes, malformed expression => error and no change"),
+        Stream("exec-readonly-agree", "pycheck", qs, impl_env=env, pycheck=exec_agree, exhaustive=True,
+               rule="is_exec = mode() & 0o111 != 0 and is_readonly = mode() & 0o222 == 0 after chmod to each of the 512 rwx values and special bits, for a file and a directory"),
+    ]
+
+
+_c11_expr = c_core.PROPS["C11"]["streams"]
+PROPS["C11"] = dict(c_core.PROPS["C11"])
+PROPS["C11"]["streams"] = lambda tier, rng, ctx: _c11_expr(tier, rng, ctx) + c11_tree_streams(tier, rng, ctx)
+PROPS["C11"]["rule"] = c_core.PROPS["C11"]["rule"] + "; tree level: every reachable tree of a bounded namespace x every chmod / chown call of the alphabet, judged on pre/post snapshots"
